@@ -29,8 +29,8 @@ type c16srv struct {
 	// close the TCP connection after each reply (a server that serves one query per connection)
 	closeAfterReply bool
 	port            int
-	uc      *net.UDPConn
-	tl      net.Listener
+	uc              *net.UDPConn
+	tl              net.Listener
 }
 
 var c16 c16srv
